@@ -179,4 +179,129 @@ def importStep (done : List Rev) (x : XCommit) : Except Err (List Rev) :=
 
 def importAll (xs : List XCommit) : Except Err (List Rev) := xs.foldlM importStep []
 
+/-! ### metadata: the zone field of `committer Name <email> <secs> <+HHMM>` -/
+
+/-- the `+HHMM` field as `format_who_when` computes it from an offset in seconds -/
+structure Zone where
+  neg : Bool
+  hours : Nat
+  minutes : Nat
+  deriving DecidableEq, Repr
+
+/-- `commands.format_who_when`: sign; `offset // 3600`; `offset // 60 - hours * 60` of the absolute value -/
+def formatZone (off : Int) : Zone :=
+  let a := off.natAbs
+  { neg := decide (off < 0), hours := a / 3600, minutes := a / 60 - (a / 3600) * 60 }
+
+/-- `dates.parse_tz`: `sign * 60 * (60 * hours + minutes)` -/
+def parseZone (z : Zone) : Int :=
+  (if z.neg then -1 else 1) * (60 * (60 * (z.hours : Int) + (z.minutes : Int)))
+
+/-! ### metadata: the committer -/
+
+abbrev Str := List Char
+
+def isWs (c : Char) : Bool := c == ' ' || c == '\t' || c == '\n' || c == '\r' || c == '\x0b' || c == '\x0c'
+
+def rstrip (s : Str) : Str := (s.reverse.dropWhile isWs).reverse
+
+/-- `BzrFastExporter._get_name_email`: no `<` - the whole string is the name; else the pattern
+`^(.*?)\s*<([^<>]*)>\s*$` (name = what precedes the last `<`, without trailing white space; email = what
+the last `<…>` holds); `none` = the pattern does not match (the code then falls back to `parseaddr`) -/
+def splitCommitter (u : Str) : Option (Str × Str) :=
+  if !u.contains '<' then some (u, [])
+  else
+    match (rstrip u).reverse with
+    | '>' :: r =>
+      let eRev := r.takeWhile fun c => c != '<' && c != '>'
+      match r.drop eRev.length with
+      | '<' :: aRev => some (rstrip aRev.reverse, eRev.reverse)
+      | _ => none
+    | _ => none
+
+/-- `commands.format_who_when`: `name <email> date` (no separating blank after an empty name) -/
+def formatWho (who : Str × Str) (date : Str) : Str :=
+  who.1 ++ (if who.1.isEmpty then [] else [' ']) ++ ['<'] ++ who.2 ++ ['>', ' '] ++ date
+
+/-- split at the LAST `> ` that is followed by at least one character (the greedy `(.*)> (.+)`) -/
+def splitLastGtSp : Str → Option (Str × Str)
+  | [] => none
+  | c :: rest =>
+    match splitLastGtSp rest with
+    | some (a, b) => some (c :: a, b)
+    | none =>
+      match c, rest with
+      | '>', ' ' :: d :: ds => some ([], d :: ds)
+      | _, _ => none
+
+/-- `ImportParser._who_when` (pattern `([^<]*)<(.*)> (.+)`): name (right-stripped), email, date -/
+def parseWho (l : Str) : Option (Str × Str × Str) :=
+  let g1 := l.takeWhile (· != '<')
+  match l.drop g1.length with
+  | '<' :: rest =>
+    (match splitLastGtSp rest with
+      | some (email, date) => some (rstrip g1, email, date)
+      | none => none)
+  | _ => none
+
+/-- `CommitHandler._format_name_email`: as found (`bare = false`) an empty name still gets the separating
+blank (`" <email>"`); `bare = true` is the variant that writes `<email>` then (the check probes the code) -/
+def joinWho (bare : Bool) (name email : Str) : Str :=
+  if email.isEmpty then name
+  else if bare && name.isEmpty then ['<'] ++ email ++ ['>']
+  else name ++ [' ', '<'] ++ email ++ ['>']
+
+/-- the committer after export and import (`date` is the `secs zone` part) -/
+def committerRoundtrip (bare : Bool) (u date : Str) : Option Str :=
+  match splitCommitter u with
+  | some who =>
+    (match parseWho (formatWho who date) with
+      | some (n, e, _) => some (joinWho bare n e)
+      | none => none)
+  | none => none
+
+/-! ### tags -/
+
+def isInfixB (pat : Bytes) : Bytes → Bool
+  | [] => pat.isEmpty
+  | c :: s => pat.isPrefixOf (c :: s) || isInfixB pat s
+
+def isSuffixB (pat s : Bytes) : Bool := pat.reverse.isPrefixOf s.reverse
+
+/-- `exporter.check_ref_format` on the bytes of a ref name (the rules of git-check-ref-format) -/
+def validRef (r : Bytes) : Bool :=
+  !(isInfixB [47, 46] r || r.head? == some 46)            -- "/." inside, or a leading "."
+  && r.contains 47                                         -- at least one "/"
+  && !isInfixB [46, 46] r                                  -- ".."
+  && r.all (fun c => !(c < 32) && !([127, 32, 126, 94, 58, 63, 42, 91] : Bytes).contains c)   -- control, DEL, space ~ ^ : ? * [
+  && !(r.getLast? == some 47 || r.getLast? == some 46)     -- trailing "/" or "."
+  && !isSuffixB [46, 108, 111, 99, 107] r                  -- ".lock"
+  && !isInfixB [64, 123] r                                 -- "@{"
+  && !r.contains 92                                        -- backslash
+
+/-- "refs/tags/" -/
+def refsTags : Bytes := [114, 101, 102, 115, 47, 116, 97, 103, 115, 47]
+
+/-- a tag of the exported branch: its name and the export position of its revision (0 = not in the
+exported ancestry: `revid_to_mark` has no mark) -/
+structure Tag where
+  name : Bytes
+  pos : Nat
+  deriving DecidableEq, Repr
+
+/-- `emit_tags` without `--rewrite-tag-names`: one `reset refs/tags/<name>` `from :<mark>` per tag that has
+a mark and, in the plain format, a name that is a valid git ref -/
+def exportTags (plain : Bool) (tags : List Tag) : List (Bytes × Nat) :=
+  (tags.filter fun t => t.pos != 0 && (!plain || validRef (refsTags ++ t.name))).map fun t => (refsTags ++ t.name, t.pos)
+
+def setTag (m : List (Bytes × Nat)) (n : Bytes) (p : Nat) : List (Bytes × Nat) := (n, p) :: m.filter (·.1 != n)
+
+/-- `reset_handler` / `_set_tag`: a reset of `refs/tags/<name>` binds the tag to the revision of the mark
+(`n` commits were imported; other refs are branch heads) -/
+def importTags (n : Nat) (resets : List (Bytes × Nat)) : List (Bytes × Nat) :=
+  resets.foldl (fun m r =>
+    if refsTags.isPrefixOf r.1 && r.2 != 0 && decide (r.2 ≤ n) then setTag m (r.1.drop refsTags.length) r.2 else m) []
+
+def tagLookup (m : List (Bytes × Nat)) (n : Bytes) : Option Nat := (m.find? (·.1 == n)).map (·.2)
+
 end BreezyVerif.C44
